@@ -109,6 +109,7 @@ type tableGen struct {
 	ndone     int
 	liveDones []int
 	nkept     int
+	dense     bool // watch-dense case: every query is a watch variant (C06 glue comparison)
 }
 
 func (g *tableGen) add(f string, a ...any) { g.ops = append(g.ops, fmt.Sprintf(f, a...)) }
@@ -206,7 +207,7 @@ func (g *tableGen) query(h string) {
 	}
 	kinds := []string{"get", "list", "prefix", "lb"}
 	kind := kinds[r.IntN(4)]
-	if r.IntN(5) == 0 {
+	if r.IntN(5) == 0 || g.dense {
 		kind += "w" // watch variant
 	}
 	switch x := r.IntN(12); {
@@ -281,15 +282,105 @@ func (g *tableGen) sweep(h string, n int) {
 	}
 }
 
-func genTable(cfg Config, emit func(string, bool, []string)) {
+// withClosedProbes: after every commit / abort / side transaction the set of closed
+// channels (among those handed out so far) is observed and compared with Model.TableWatch
+func withClosedProbes(ops []string) []string {
+	out := make([]string, 0, len(ops)+len(ops)/4)
+	for _, op := range ops {
+		out = append(out, op)
+		if op == "commit" || op == "abort" || strings.HasPrefix(op, "side ") {
+			out = append(out, "closed")
+		}
+	}
+	return out
+}
+
+func genTable(cfg Config, emit0 func(string, bool, []string)) {
+	emit := func(name string, b bool, ops []string) { emit0(name, b, withClosedProbes(ops)) }
 	n, maxTx, maxOps := 200, 8, 12
 	if cfg.Thorough() {
 		n, maxTx, maxOps = 2000, 14, 40
 	}
-	for c := 0; c < n; c++ {
+	// the last `nDense` cases are watch-dense general cases (own random streams; the cases before
+	// them are generated exactly as without them)
+	nDense := 40
+	if cfg.Thorough() {
+		nDense = 200
+	}
+	for c := 0; c < n+nDense; c++ {
 		g := &tableGen{r: newRand(cfg.Seed, uint64(300+c)), ord: map[string]int{}}
 		r := g.r
-		if c%10 == 5 {
+		ck := c % 10
+		if c >= n {
+			ck = 0
+			g.dense = true
+		}
+		if c == n {
+			// index-wide channels of the LPM indexes and the root watches, against transactions that
+			// change nothing, only fail a guard, write objects without LPM keys, or are aborted
+			k1, k2 := hx([]byte("n1")), hx([]byte("n2"))
+			g.add("wtxn ma")
+			g.add("ins m %s 1 0 x61 x0a00/8 1 1", k1)
+			g.add("ins a %s 1 0 x61 - 0 1", k1)
+			g.add("commit")
+			g.nsnap++
+			probe := func() {
+				g.add("rtxn")
+				g.nsnap++
+				h := fmt.Sprintf("s%d", g.nsnap-1)
+				g.add("lbw %s m lpm x0000/0", h)
+				g.add("getw %s m lpm x0a01/16", h)
+				g.add("prefixw %s m ulpm x0000/0", h)
+				g.add("allw %s m", h)
+				g.add("lbw %s m u x", h)
+				g.add("lbw %s m tags x", h)
+				g.add("getw %s m id %s", h, k1)
+				g.add("getw %s m id %s", h, k2)
+				g.add("listw %s m tags x61", h)
+				g.add("allw %s a", h)
+				g.add("lbw %s a tags x", h)
+			}
+			probe()
+			g.add("wtxn m")
+			g.add("cas m big %s 2 0 - - 0 1", k1) // guard fails: primary index dirtied and reverted (K3), nothing else touched
+			g.add("lbw w m lpm x0000/0")
+			g.add("commit")
+			g.nsnap++
+			probe()
+			g.add("wtxn m")
+			g.add("del m %s", k2) // absent
+			g.add("cad m big %s", k1)
+			g.add("cas m cur %s 5 0 - - 0 2", k2) // object missing
+			g.add("commit")
+			g.nsnap++
+			probe()
+			g.add("wtxn m")
+			g.add("ins m %s 3 0 - - 0 2", k2) // no tags, no LPM keys: the LPM indexes get a transaction all the same
+			g.add("lbw w m lpm x0000/0")
+			g.add("allw w m")
+			g.add("commit")
+			g.nsnap++
+			probe()
+			g.add("wtxn m")
+			g.add("delall m")
+			g.add("lbw w m ulpm x0000/0")
+			g.add("abort")
+			probe()
+			g.add("wtxn a")
+			g.add("insw a %s 2 0 x62 - 0 2", k2)
+			g.add("lbw w m lpm x0000/0")
+			g.add("commit")
+			g.nsnap++
+			probe()
+			g.add("wtxn m")
+			g.add("delall m")
+			g.add("commit")
+			g.nsnap++
+			probe()
+			emit("table index-wide-channels", true, g.ops)
+			continue
+		}
+		if ck == 5 {
 			// iterator closed while it still has unobserved deletions: nothing may stay
 			// retained once the collector has handled the triggers the close produced
 			nit := 1 + r.IntN(2)
@@ -367,7 +458,7 @@ func genTable(cfg Config, emit func(string, bool, []string)) {
 			emit("table close-with-unobserved-deletions", true, g.ops)
 			continue
 		}
-		if c%10 == 9 {
+		if ck == 9 {
 			// long quiet period: nodes of the LPM trie (and of the radix trees) that are not
 			// written for ~256 transactions while an early snapshot is retained, then written
 			// through one after the other (transaction-id stamps must not wrap or be reused)
@@ -409,7 +500,7 @@ func genTable(cfg Config, emit func(string, bool, []string)) {
 			emit("table long-quiet", true, g.ops)
 			continue
 		}
-		if c%10 == 1 {
+		if ck == 1 {
 			// collector vs. an unrelated open writer: table m has collectable deletions, table a
 			// has deletions its iterator has not seen; a transaction on a alone is open
 			g.add("wtxn ma")
@@ -458,7 +549,7 @@ func genTable(cfg Config, emit func(string, bool, []string)) {
 			emit("table collector-vs-writer", true, g.ops)
 			continue
 		}
-		if c%10 == 3 {
+		if ck == 3 {
 			// restructuring case at table level: primary keys a, abc, abd (+ x outside): deleting
 			// "a" pulls the inner node below it up one level; further writes below it in the SAME
 			// transaction must still close the watch channels handed out by the snapshot before
@@ -695,7 +786,7 @@ func genTable(cfg Config, emit func(string, bool, []string)) {
 			emit("table restructure", true, g.ops)
 			continue
 		}
-		if c%10 == 7 {
+		if ck == 7 {
 			// threshold walker at table level: objects sharing a primary-key stem and one tag,
 			// removed one per transaction across the radix node size boundaries, with watches
 			// on the affected index nodes taken from the snapshot just before
@@ -903,7 +994,11 @@ func genTable(cfg Config, emit func(string, bool, []string)) {
 			g.nsnap++
 			fresh := fmt.Sprintf("s%d", g.nsnap-1)
 			g.sweep(fresh, 3)
-			for i := 1 + r.IntN(4); i > 0; i-- {
+			nq := 1 + r.IntN(4)
+			if g.dense {
+				nq = 5 + r.IntN(8)
+			}
+			for i := nq; i > 0; i-- {
 				g.query(fresh)
 			}
 			g.add("inited %s m", fresh)
@@ -979,6 +1074,10 @@ func genTable(cfg Config, emit func(string, bool, []string)) {
 		// every retained snapshot re-read through several indexes
 		for s := 0; s < g.nsnap; s++ {
 			g.sweep(fmt.Sprintf("s%d", s), 100)
+		}
+		if g.dense {
+			emit(fmt.Sprintf("table watch-dense iters=%v init=%v", withIters, withInit), true, g.ops)
+			continue
 		}
 		emit(fmt.Sprintf("table iters=%v init=%v", withIters, withInit), true, g.ops)
 	}
@@ -1464,6 +1563,39 @@ func (e *tableExec) name(ch <-chan struct{}) string {
 	return n
 }
 
+// chanObs: what a watch variant appends to its observation: the canonical name of the channel
+// handed out (order of first appearance) and its state; compared with Model.TableWatch
+func (e *tableExec) chanObs(w <-chan struct{}) string {
+	if w == nil {
+		return " # nil"
+	}
+	st := "open"
+	if isClosed(w) {
+		st = "closed"
+	}
+	return " # " + e.name(w) + " " + st
+}
+
+// closedObs: the sorted names of all channels handed out so far that are closed now
+func (e *tableExec) closedObs() string {
+	var ns []int
+	for ch, n := range e.names {
+		if isClosed(ch) {
+			k, _ := strconv.Atoi(n[1:])
+			ns = append(ns, k)
+		}
+	}
+	if len(ns) == 0 {
+		return "."
+	}
+	sort.Ints(ns)
+	p := make([]string, len(ns))
+	for i, k := range ns {
+		p[i] = "w" + strconv.Itoa(k)
+	}
+	return strings.Join(p, " ")
+}
+
 // after a commit / abort: the watch-channel clauses of C06 and C19
 func (e *tableExec) afterTxn(o *Out, committedTxn bool) {
 	for _, w := range e.watches {
@@ -1525,6 +1657,10 @@ func (it *tIter) lastRevSeen() uint64 { return it.createdAt }
 func (e *tableExec) Do(o *Out, f []string) string {
 	obs := e.do(o, f)
 	if len(f) > 2 && strings.HasPrefix(f[1], "s") && f[0] != "next" {
+		obs := obs
+		if i := strings.Index(obs, " # "); i >= 0 {
+			obs = obs[:i] // the channel part of a watch variant is not part of the query's answer
+		}
 		q := strings.Join(f, " ")
 		q = strings.Replace(q, f[0], strings.TrimSuffix(f[0], "w"), 1)
 		if e.memo == nil {
@@ -1633,6 +1769,8 @@ func (e *tableExec) do(o *Out, f []string) string {
 		e.afterTxn(o, false)
 		e.abortBattery(o)
 		return "ok"
+	case "closed":
+		return e.closedObs()
 	case "rtxn":
 		e.snaps = append(e.snaps, e.db.ReadTxn())
 		e.srefs = append(e.srefs, e.committed)
@@ -1689,9 +1827,11 @@ func (e *tableExec) do(o *Out, f []string) string {
 		}
 		tn := f[2]
 		var got []refObj
+		chobs := ""
 		if f[0] == "allw" {
 			seq, w := e.tbl(tn).AllWatch(rtx)
 			got = collectSeq(seq)
+			chobs = e.chanObs(w)
 			e.recordWatch(o, w, f, tn, rtx, ref, func(d *refDB) string { return showROs(d.t(tn).sorted(nil)) })
 		} else {
 			got = collectSeq(e.tbl(tn).All(rtx))
@@ -1700,7 +1840,7 @@ func (e *tableExec) do(o *Out, f []string) string {
 		if !eqROs(got, want) {
 			e.queryFail(o, f, got, want)
 		}
-		return showROs(got)
+		return showROs(got) + chobs
 	case "num":
 		rtx, ref, ok := e.handle(f[1])
 		if !ok {
@@ -2259,6 +2399,9 @@ func (e *tableExec) doQuery(o *Out, f []string) string {
 			return showROs(r)
 		})
 	}
+	if strings.HasSuffix(f[0], "w") {
+		return showROs(got) + e.chanObs(w)
+	}
 	return showROs(got)
 }
 
@@ -2306,12 +2449,14 @@ func (e *tableExec) doWrite(o *Out, f []string) string {
 		err    error
 		guard  uint64
 	)
+	chobs := ""
 	switch f[0] {
 	case "ins":
 		gotOld, hadOld, err = tbl.Insert(e.wtxn, obj)
 	case "insw":
 		var w <-chan struct{}
 		gotOld, hadOld, w, err = tbl.InsertWatch(e.wtxn, obj)
+		chobs = e.chanObs(w)
 		if w != nil && err == nil && isClosed(w) {
 			o.Fail("C06", "closed-when-handed-out", map[string]string{"query": "insw"}, "InsertWatch returned a closed channel")
 		}
@@ -2382,7 +2527,7 @@ func (e *tableExec) doWrite(o *Out, f []string) string {
 	if hadOld && gotOld != nil {
 		oldS = showRO(gotOld, old.rev)
 	}
-	return oldS + " " + gotErr
+	return oldS + " " + gotErr + chobs
 }
 
 func (e *tableExec) closedWrite(o *Out, f []string, obj *tObj) string {
